@@ -135,7 +135,11 @@ def _rand_dataset(rng, kind):
         t0 = datetime.datetime(y, rng.randrange(1, 13), rng.randrange(1, 28), rng.randrange(24), rng.randrange(60))
         for _ in range(n):
             t = t0 + datetime.timedelta(days=rng.randrange(0, span), seconds=rng.randrange(86400))
-            if rng.random() < 0.3:
+            r_ = rng.random()
+            if r_ < 0.12:
+                # bare time of day: the one branch of parse_items that reads ambient state (today's date)
+                items.append({"time": "C:%02d:%02d:%02d" % (t.hour, t.minute, t.second), "width": rng.choice([20, 35, 50])})
+            elif r_ < 0.35:
                 items.append({"time": "D:" + t.date().isoformat(), "width": rng.choice([20, 35, 50])})
             else:
                 items.append({"time": "T:" + t.isoformat(), "width": rng.choice([20, 35, 50])})
